@@ -158,3 +158,42 @@ Lemma C17_point_map_refuted_l :
       glue_laplace_hypersingular RO ver G4 gt gs st ss supp supp nEs quad nbrs Sing x = None /\
       glue_pot_single_layer RO ver G4 gs ss supp nEs quad x = None.
 Proof. intros A RO ver. exact (@point_map_refuted A RO ver). Qed.
+
+Lemma C07_maxwell_potentials_kernel_sum_l :
+  forall (A : Type) (RO : ops A) (Hring : IsRing RO)
+         (g : geom) (s : space) (quad : list qpt) (kern : kernel) (supp : list nat)
+         (dist : vec3 A -> vec3 A -> A) (ik : A) (c : nat -> A) (pt : vec3 A) (d : nat),
+  NoDup supp -> d < 3 ->
+  comp (efield_potential RO g s quad kern supp dist ik (full_coeffs RO s supp c) pt) d =
+  sumf (o0 RO) (oadd RO) (fun e => sumf (o0 RO) (oadd RO) (fun q =>
+     omul RO (kern pt (ypt RO g e q) (vzero (o0 RO)) (vzero (o0 RO)))
+       (osub RO (omul RO ik (mx_density RO g s c e q d))
+          (omul RO (omul RO (omul RO (comp (vsub (osub RO) pt (ypt RO g e q)) d)
+                                     (osub RO (omul RO ik (dist pt (ypt RO g e q))) (o1 RO)))
+                            (mx_divdensity RO g s c e q))
+                   (oinv RO (omul RO (omul RO ik (dist pt (ypt RO g e q))) (dist pt (ypt RO g e q))))))) quad) supp
+  /\
+  comp (mfield_potential RO g s quad kern supp dist ik (full_coeffs RO s supp c) pt) d =
+  sumf (o0 RO) (oadd RO) (fun e => sumf (o0 RO) (oadd RO) (fun q =>
+     comp (cross3 (omul RO) (osub RO) (vsub (osub RO) pt (ypt RO g e q))
+        (vscal (omul RO)
+           (omul RO (omul RO (kern pt (ypt RO g e q) (vzero (o0 RO)) (vzero (o0 RO)))
+                             (osub RO (omul RO ik (dist pt (ypt RO g e q))) (o1 RO)))
+                    (oinv RO (omul RO (dist pt (ypt RO g e q)) (dist pt (ypt RO g e q)))))
+           (mkv (mx_density RO g s c e q)))) d) quad) supp
+  /\
+  (forall (x : nat -> A) (inseg : nat -> bool),
+     comp (efield_potential RO g s quad kern supp dist ik x pt) d =
+     oadd RO (comp (efield_potential RO g s quad kern (filter inseg supp) dist ik x pt) d)
+             (comp (efield_potential RO g s quad kern (filter (fun e => negb (inseg e)) supp) dist ik x pt) d) /\
+     comp (mfield_potential RO g s quad kern supp dist ik x pt) d =
+     oadd RO (comp (mfield_potential RO g s quad kern (filter inseg supp) dist ik x pt) d)
+             (comp (mfield_potential RO g s quad kern (filter (fun e => negb (inseg e)) supp) dist ik x pt) d)).
+Proof.
+  intros A RO Hring g s quad kern supp dist ik c pt d Hnd Hd. split; [|split].
+  - exact (efield_potential_is_kernel_sum g s quad kern supp dist Hnd ik c pt d Hd).
+  - exact (mfield_potential_is_kernel_sum g s quad kern supp dist Hnd ik c pt d Hd).
+  - intros x inseg. split.
+    + exact (efield_potential_additive g s quad kern supp dist ik x pt d inseg Hd).
+    + exact (mfield_potential_additive g s quad kern supp dist ik x pt d inseg Hd).
+Qed.
